@@ -82,3 +82,64 @@ theorem mainTextL_rejected (L : Limits) (env : PEnv) (orc : EvalOracles) (rxOk :
   rfl
 
 end Mdsort.Proofs.Limits
+
+namespace Mdsort.Proofs.Limits
+open Mdsort Mdsort.Model Mdsort.Proofs.World
+
+/-- `maildir_opendir` keeps the paths of the maildir. -/
+theorem maildirOpendir_paths (md : Maildir) (p : Bytes) :
+    All (fun r : Maildir × Bool => r.1.path = md.path ∧ r.1.root = md.root) (maildirOpendir md p) := by
+  unfold maildirOpendir
+  simp only [bind_eq, pure_eq, call_bind]
+  split
+  · intro _ r
+    cases r <;> exact ⟨rfl, rfl⟩
+  · intro r
+    cases r <;> exact ⟨rfl, rfl⟩
+
+/-- What `maildir_close` of the spool will `rmdir` after ANY outcome of `maildir_stdin`, overflow included: `md_path` is
+empty or `md_root/new` in full, and `md_root` is empty or what `mkdtemp` returned - never a shortened path
+(`md->md_root[0] = '\0'`, `md->md_path[0] = '\0'`: "do not leave a truncated path behind"). -/
+theorem maildirStdinL_paths (L : Limits) (env : PEnv) (input : Bytes) :
+    All (fun r : Maildir × Bool × Option Bytes => r.1.path = [] ∨ r.1.path = r.1.root ++ [47] ++ subdirName .new)
+      (maildirStdinL L env input) := by
+  unfold maildirStdinL
+  simp only [bind_eq, pure_eq, call_bind]
+  split
+  · exact .inl rfl
+  · intro r
+    dsimp only
+    split
+    · rename_i root
+      cases hj : pathjoinL L.pathMax root (subdirName .new) with
+      | none => exact .inl rfl
+      | some p =>
+        have hp : p = root ++ [47] ++ subdirName .new := by
+          rw [pathjoinL_exact] at hj
+          split at hj
+          · exact (Option.some.inj hj).symm
+          · cases hj
+        subst hp
+        simp only
+        intro r2
+        dsimp only
+        split
+        · exact .inr rfl
+        · refine All.bind ((maildirOpendir_paths _ _).mono fun x hx => ?_)
+          obtain ⟨h1, h2⟩ := hx
+          have hgood : x.1.path = x.1.root ++ [47] ++ subdirName .new := by rw [h1, h2]
+          split
+          · exact .inr hgood
+          · apply All.bind_of_forall
+            intro g
+            split
+            · exact .inr hgood
+            · apply All.bind_of_forall
+              intro _
+              apply All.bind_of_forall
+              intro _
+              intro _
+              exact .inr hgood
+    · exact .inl rfl
+
+end Mdsort.Proofs.Limits
